@@ -1,2 +1,6 @@
 import Emitter.Props.C08
-#print axioms Emitter.C08.placeholder
+#print axioms Emitter.C08.close_cleans
+#print axioms Emitter.C08.will_fires_iff
+#print axioms Emitter.C08.will_once
+#print axioms Emitter.C08.presence_leave
+#print axioms Emitter.C08.sync_step
